@@ -39,7 +39,7 @@ TABLE["C19"] = dict(engine="component", technique="property-based testing + exha
     text="Four generated parts (allocate structure, validation incl. 'nothing sent', completion through the real Input helper and CodeInputter, only-one-code) plus an exhaustive part run in both tiers. The trailing-newline nameplate this found was repaired in repo commit a53d28e (fix:).",
     note=COMP_NOTE + " os.urandom itself is trusted.")
 
-TABLE["C12"] = dict(engine="component", technique="property-based testing: Hypothesis-generated record sequences (all types, 32-bit boundary ids, payload sizes around the Noise packet limits), tape-chosen chunkings and hostile byte-stream variants against a real DilatedConnectionProtocol pair with real Noise; round-trip oracle and nothing-surfaced-after-hostile-element oracle; the thorough tier adds a coverage-guided atheris (libFuzzer) campaign on the unkeyed byte stream with the same oracle inside the fuzz target",
+TABLE["C12"] = dict(engine="component", technique="property-based testing: Hypothesis-generated record sequences (all types, 32-bit boundary ids, payload sizes around the Noise packet limits), tape-chosen chunkings and hostile byte-stream variants against a real DilatedConnectionProtocol pair with real Noise; round-trip oracle and nothing-surfaced-after-hostile-element oracle; a second generated part builds several connection pairs of one or two independently keyed sessions in one process (at most one selected per session, the others left as candidates or lost with records parked) with the oracle 'a manager is handed exactly what the peer of its selected connection sent'; the thorough tier adds a coverage-guided atheris (libFuzzer) campaign on the unkeyed byte stream with the same oracle inside the fuzz target",
     text="Both ends are the real protocol objects built by Connector.build_protocol (framer, record layer, Noise), joined by byte pipes; the manager is a recording stub, so 'reaching the manager' is observed directly. Hostile variants are produced by a party that does not hold the dilation key.",
     note=COMP_NOTE + " The Noise implementation in use (noiseprotocol if importable, else the /verif shim self-tested by setup) is trusted as an AEAD.")
 
